@@ -14,6 +14,7 @@ import (
 	"flag"
 	"fmt"
 	"hash/fnv"
+	"io"
 	"os"
 	"path/filepath"
 	"runtime/debug"
@@ -825,6 +826,105 @@ func vfRegistered() map[string]bool {
 	return out
 }
 
+
+// ---------------------------------------------------------------------------------
+// route equivalence: whatever entry point, read schedule, limit history or caller buffer is
+// used, the same header under the same limit gets the same answer. Used by the per-property
+// checks after their own oracle, so that plumbing defects cannot hide behind one entry point.
+
+type vfDataEOFReader struct {
+	data   []byte
+	off    int
+	chunk  int
+	onRead func() // called once, inside the first Read
+}
+
+func (r *vfDataEOFReader) Read(p []byte) (int, error) {
+	if r.onRead != nil {
+		f := r.onRead
+		r.onRead = nil
+		f()
+	}
+	if r.off >= len(r.data) {
+		return 0, io.EOF
+	}
+	n := len(p)
+	if r.chunk > 0 && n > r.chunk {
+		n = r.chunk
+	}
+	n = copy(p[:n], r.data[r.off:])
+	r.off += n
+	if r.off == len(r.data) {
+		return n, io.EOF // the last bytes arrive together with io.EOF
+	}
+	return n, nil
+}
+
+var (
+	vfRouteShared []byte
+	vfRoutePrev   []byte
+)
+
+// vfRoutes compares the alternative routes with want = Detect(x) under limit. It returns a
+// description of the first disagreement.
+func vfRoutes(x []byte, limit uint32, want *MIME) error {
+	if limit > 1<<22 {
+		return nil
+	}
+	defer SetLimit(defaultLimit)
+	ws := vfChainStr(want)
+	h := vfHash(x, vfHashU(uint64(limit)))
+	// (a) reader after a detection under another limit; chunked; last data together with EOF
+	prev := uint32(7)
+	if h&1 == 1 {
+		prev = uint32(len(x)) + limit + 300
+		if prev > 1<<20 {
+			prev = 1 << 20
+		}
+	}
+	SetLimit(prev)
+	_, _ = DetectReader(bytes.NewReader(x[:min(len(x), 40)]))
+	SetLimit(limit)
+	chunk := []int{0, 1, 3, 512, 3072, 5000}[(h>>1)%6]
+	m, err := DetectReader(&vfDataEOFReader{data: x, chunk: chunk})
+	if err != nil || m == nil || vfChainStr(m) != ws {
+		return fmt.Errorf("DetectReader (chunk %d, last data with EOF, after a reader detection under limit %d) gives (%s, %v), Detect gives %s", chunk, prev, vfChainStr(m), err, ws)
+	}
+	// (b) the limit is changed while the reader is being read: the answer must be the one for
+	// the old or for the new limit, on the same bytes
+	other := limit*2 + 11
+	if (h>>4)&1 == 1 {
+		other = 0
+	} else if (h>>5)&1 == 1 && limit > 4 {
+		other = limit / 2
+	}
+	SetLimit(limit)
+	m2, err := DetectReader(&vfDataEOFReader{data: x, chunk: chunk, onRead: func() { SetLimit(other) }})
+	SetLimit(other)
+	alt := vfChainStr(Detect(x))
+	if err != nil || m2 == nil || (vfChainStr(m2) != ws && vfChainStr(m2) != alt) {
+		return fmt.Errorf("DetectReader while the limit changes from %d to %d gives (%s, %v); under %d the answer is %s, under %d it is %s", limit, other, vfChainStr(m2), err, limit, ws, other, alt)
+	}
+	// (c) the caller re-uses one buffer: the previous input of this process, then x, same length
+	SetLimit(limit)
+	if cap(vfRouteShared) < len(x) {
+		vfRouteShared = make([]byte, len(x)*2+64)
+	}
+	sh := vfRouteShared[:len(x)]
+	if len(vfRoutePrev) > 0 && len(x) > 0 {
+		for i := range sh {
+			sh[i] = vfRoutePrev[i%len(vfRoutePrev)]
+		}
+		Detect(sh)
+	}
+	copy(sh, x)
+	if m3 := Detect(sh); vfChainStr(m3) != ws {
+		return fmt.Errorf("Detect on a re-used caller buffer (which held other content of the same length just before) gives %s, on a fresh slice %s", vfChainStr(m3), ws)
+	}
+	vfRoutePrev = append(vfRoutePrev[:0], x[:min(len(x), 4096)]...)
+	return nil
+}
+
 // ---------------------------------------------------------------------------------
 // seed corpus and mutators
 
@@ -982,6 +1082,24 @@ func vfGenTextish(t *rapid.T) string {
 		sb.WriteString(rapid.SampledFrom(vfTextPieces).Draw(t, "piece"))
 	}
 	return sb.String()
+}
+
+// vfGenLong draws a long (3100-9000 byte) text-like input and a limit above the default that
+// falls inside it; `at` is the limit as an offset, so that callers can plant bytes around it.
+func vfGenLong(t *rapid.T) (x []byte, limit uint32) {
+	unit := rapid.SampledFrom([]string{"lorem ipsum dolor sit amet, ", "a,b,c\n", "{\"k\":1}\n", "x", "word ", "1\t2\n", "<p>para</p>\n"}).Draw(t, "unit")
+	n := rapid.IntRange(3100, 9000).Draw(t, "longlen")
+	head := rapid.SampledFrom([]string{"", "", "{\"a\":[", "[\"", "<html><body>", "<?xml version=\"1.0\"?><r>", "id,name,v\n", "#!/usr/bin/env python\n"}).Draw(t, "longhead")
+	x = []byte(head)
+	for len(x) < n {
+		x = append(x, unit...)
+	}
+	x = x[:n]
+	L := rapid.IntRange(3073, n+3).Draw(t, "longlimit")
+	if rapid.Bool().Draw(t, "p2") {
+		L = rapid.SampledFrom([]int{3073, 4096, 6144, 8192, n - 1, n, n + 1}).Draw(t, "longlimit2")
+	}
+	return x, uint32(L)
 }
 
 // vfIsBinByte is the WHATWG binary data byte predicate, written from the specification
